@@ -274,6 +274,85 @@ theorem carryFold_carry_eq (H : Bytes → Bytes) :
         · exact ih _ _ _
         · exact ih _ _ _
 
+/-! ### roots are the base-16 digits of the length -/
+
+def WFRoots (rs : List Bytes) : Prop := ∀ r ∈ rs, r.length % 32 = 0 ∧ r.length < 512
+
+def inc16 : List Nat → List Nat
+  | [] => [1]
+  | d :: r => if d + 1 = 16 then 0 :: inc16 r else (d + 1) :: r
+
+/-- little-endian base-16 digits of `n` (no trailing zero digit) -/
+def digits16 : Nat → List Nat
+  | 0 => []
+  | n + 1 => (n + 1) % 16 :: digits16 ((n + 1) / 16)
+decreasing_by omega
+
+theorem inc16_digits16 : ∀ n, inc16 (digits16 n) = digits16 (n + 1) := by
+  intro n
+  induction n using Nat.strongRecOn with
+  | _ n ih =>
+    cases n with
+    | zero => simp [digits16, inc16]
+    | succ m =>
+      rw [digits16, digits16]
+      by_cases hc : (m + 1) % 16 + 1 = 16
+      · have h2 : (m + 1 + 1) % 16 = 0 := by omega
+        have h3 : (m + 1 + 1) / 16 = (m + 1) / 16 + 1 := by omega
+        simp only [inc16, hc, if_true, h2, h3]
+        rw [ih ((m + 1) / 16) (by omega)]
+      · have h2 : (m + 1 + 1) % 16 = (m + 1) % 16 + 1 := by omega
+        have h3 : (m + 1 + 1) / 16 = (m + 1) / 16 := by omega
+        simp only [inc16, hc, if_false, h2, h3]
+
+theorem addAt_shape (H : Bytes → Bytes) (hlen : ∀ x, (H x).length = 32) :
+    ∀ (rs : List Bytes) (hash : Bytes) (db : DB), hash.length = 32 → WFRoots rs →
+      (addAt H rs hash db).2.2 = true ∧ WFRoots (addAt H rs hash db).1 ∧
+      (addAt H rs hash db).1.map nodeLen = inc16 (rs.map nodeLen) := by
+  intro rs
+  induction rs with
+  | nil =>
+    intro hash db hh _
+    simp [addAt, nodeAdd, hashLen, hh, nodeFull, maxNodeBytes, maxChildren, WFRoots, nodeLen, inc16]
+  | cons r rest ih =>
+    intro hash db hh hwf
+    obtain ⟨hr1, hr2⟩ := hwf r (by simp)
+    have hrest : WFRoots rest := fun x hx => hwf x (by simp [hx])
+    have hna : nodeAdd r hash = some (r ++ hash) := by
+      unfold nodeAdd nodeFull maxNodeBytes maxChildren hashLen
+      have h1 : ¬ hash.length ≠ 32 := by omega
+      have h2 : ¬ (decide (r.length = 32 * 16) = true) := by simp; omega
+      simp only [h1, h2, if_false]
+      simp
+    simp only [addAt, hna]
+    by_cases hf : nodeFull (r ++ hash) = true
+    · simp only [hf, if_true]
+      obtain ⟨i1, i2, i3⟩ := ih (H (r ++ hash)) (db.set (H (r ++ hash)) (r ++ hash)) (hlen _) hrest
+      have hfull : r.length + 32 = 512 := by
+        simpa [nodeFull, maxNodeBytes, maxChildren, hashLen, hh] using hf
+      refine ⟨i1, ?_, ?_⟩
+      · intro x hx
+        simp only [List.mem_cons] at hx
+        rcases hx with hx | hx
+        · subst hx; simp
+        · exact i2 x hx
+      · have : nodeLen r + 1 = 16 := by simp only [nodeLen, hashLen]; omega
+        have hnil : nodeLen ([] : Bytes) = 0 := rfl
+        simp [i3, inc16, this, hnil]
+    · simp only [hf]
+      have hnf : r.length + 32 ≠ 512 := by
+        intro e; apply hf; simp [nodeFull, maxNodeBytes, maxChildren, hashLen, hh, e]
+      refine ⟨rfl, ?_, ?_⟩
+      · intro x hx
+        simp only [Bool.false_eq_true, if_false, List.mem_cons] at hx
+        rcases hx with hx | hx
+        · subst hx; simp [hh]; omega
+        · exact hrest x hx
+
+      · have h1 : nodeLen (r ++ hash) = nodeLen r + 1 := by simp [nodeLen, hashLen, hh]
+        have h2 : ¬ nodeLen r + 1 = 16 := by simp only [nodeLen, hashLen]; omega
+        simp [h1, inc16, h2]
+
 /-! ### `LevelFromLen` -/
 
 theorem bitLen_bounds (m : Nat) : m < 2 ^ bitLen m ∧ (m ≠ 0 → 2 ^ (bitLen m - 1) ≤ m) := by
